@@ -66,6 +66,33 @@ theorem dr_plain {e : Exn} (hp : Plain e) (o : Outcome) (t : List TimelineEv) :
       = (!o.ok && o.cause == some .exception && o.lastExc == some e.ref) := by
   cases e <;> first | rfl | exact hp.elim
 
+/-- what the operation raised, when it is re-raised by call() as "the last exception" -/
+def OpExn (e : Exn) : Prop :=
+  Plain e ∧ e.isException = true ∧ e.isAbort = false ∧ e.isExhausted = false
+
+/-- how call() ended when execute() returned a failed outcome `o` (`w` = call()'s final world; `m` = the
+    configured `max_attempts`, for the "nothing was ever attempted" case) -/
+def ErrKind (m : Nat) (e : Exn) (o : Outcome) (w : World) : Prop :=
+  o.ok = false ∧ o.lastClass = w.rs.lastClass ∧
+  ((e.isAbort = true ∧ o.stop = some .aborted) ∨
+   ((∃ f, e = .libExhausted f ∧ f.lastClass = w.rs.lastClass) ∧ o.stop ≠ some .aborted) ∨
+   (OpExn e ∧ o.stop ≠ some .aborted) ∨
+   (e = .libRuntimeError ∧ m = 0))
+
+theorem ErrKind.mono {m : Nat} {e : Exn} {o : Outcome} {w : World} (h : ErrKind 1 e o w) : ErrKind m e o w := by
+  obtain ⟨h1, h2, h3⟩ := h
+  refine ⟨h1, h2, ?_⟩
+  rcases h3 with h | h | h | ⟨_, h⟩
+  · exact Or.inl h
+  · exact Or.inr (Or.inl h)
+  · exact Or.inr (Or.inr (Or.inl h))
+  · cases h
+
+theorem ErrKind.congr {m : Nat} {e : Exn} {o : Outcome} {w w' : World} (hr : w'.rs = w.rs)
+    (h : ErrKind m e o w) : ErrKind m e o w' := by
+  unfold ErrKind at *
+  rw [hr]; exact h
+
 theorem dr_tl (rc : Res) (o : Outcome) (t : List TimelineEv) :
     deliverRelated rc (.outcome o t) = deliverRelated rc (.outcome o []) := by
   cases rc with
@@ -90,7 +117,7 @@ theorem buildOutcome_run (ok : Bool) (value : Option Nat) (n : Nat) (ns : Option
 
 /-- what a continuing attempt leaves behind for `raise_exhausted_call` / `build_exhausted_outcome` -/
 def Carry (w : World) : Prop :=
-  w.rs.lastCause = some .result ∨ (w.rs.lastCause = some .exception ∧ ∃ e, w.rs.lastExc = some e ∧ Plain e)
+  w.rs.lastCause = some .result ∨ (w.rs.lastCause = some .exception ∧ ∃ e, w.rs.lastExc = some e ∧ OpExn e)
 
 /-- call-mode result of an attempt vs execute-mode result of the same attempt (`a` = attempt number) -/
 def AttemptRel (a : Nat) (rc : EStateM.Result Exn World (Option Nat))
@@ -98,7 +125,8 @@ def AttemptRel (a : Nat) (rc : EStateM.Result Exn World (Option Nat))
   match rc, re with
   | .ok none wc, .ok none we => π we = π wc ∧ we.attempts = a ∧ Carry wc
   | .ok (some v) wc, .ok (some o) we => π we = π wc ∧ deliverRelated (.ret v) (.outcome o []) = true
-  | .error e wc, .ok (some o) we => π we = π wc ∧ deliverRelated (.raised e) (.outcome o []) = true
+  | .error e wc, .ok (some o) we =>
+    π we = π wc ∧ deliverRelated (.raised e) (.outcome o []) = true ∧ ErrKind 1 e o wc
   | .error e wc, .error e' we => π we = π wc ∧ e' = e ∧ AbOK e wc
   | _, _ => False
 
@@ -153,7 +181,7 @@ theorem handleAbortAttemptEnd_run {cfg : Cfg} (he : cfg.attemptEnd = none) (a : 
 theorem execAbortExit_noop {cfg : Cfg} (he : cfg.attemptEnd = none) (tl : Bool) (a : Nat) (e : Exn)
     (w : World) (hls : w.rs.lastStop = some .aborted) :
     ∃ o w', execAbortExit cfg tl a e w = .ok (some o) w' ∧ π w' = π w ∧
-      o.ok = false ∧ o.stop = some .aborted := by
+      o.ok = false ∧ o.stop = some .aborted ∧ o.lastClass = w.rs.lastClass := by
   obtain ⟨w1, h1, h2, h3⟩ := handleAbortAttemptEnd_run he a e w
   have hls1 : w1.rs.lastStop = some .aborted := by rw [π_rs h2]; exact hls
   unfold execAbortExit
@@ -164,7 +192,7 @@ theorem execAbortExit_noop {cfg : Cfg} (he : cfg.attemptEnd = none) (tl : Bool) 
   unfold abortOutcome
   rw [bind_run, bind_run, emitAbortedOnce_noop _ _ _ _ hls1]
   simp only [buildOutcome_run, pure_run]
-  exact ⟨_, _, rfl, h2, rfl, by simp [hls1]⟩
+  exact ⟨_, _, rfl, h2, rfl, by simp [hls1], by simp [π_rs h2]⟩
 
 /-! ### delivery: `deliverCall` vs `deliverExecute` -/
 
@@ -172,7 +200,7 @@ theorem deliver_rel {cfg : Cfg} (tl : Bool) {a : Nat} {o : AOutcome} {r re : RSt
     {orig : Option Exn} {fb : ExhaustedFields} {we wc : World}
     (hπ : π we = π wc) (hatt : we.attempts = a) (hr : wc.rs = r) (hrr : re = r) (hf : DecFacts o r)
     (hcr : fr = true → r.lastCause = some .result)
-    (hce : fr = false → r.lastCause = some .exception ∧ ∃ e, orig = some e ∧ r.lastExc = some e ∧ Plain e) :
+    (hce : fr = false → r.lastCause = some .exception ∧ ∃ e, orig = some e ∧ r.lastExc = some e ∧ OpExn e) :
     AttemptRel a (deliverCall (determineAction o r a fr) orig fb wc)
       (deliverExecute cfg tl (determineAction o re a fr) o we) := by
   subst hrr
@@ -195,12 +223,14 @@ theorem deliver_rel {cfg : Cfg} (tl : Bool) {a : Nat} {o : AOutcome} {r re : RSt
     unfold abortOutcome
     rw [bind_run, bind_run, emitAbortedOnce_noop _ _ _ _ hls]
     simp only [buildOutcome_run, pure_run, throw_run]
-    exact ⟨hπ, by simp [deliverRelated, hls]⟩
+    exact ⟨hπ, by simp [deliverRelated, hls],
+      rfl, by simp [hre, hr], Or.inl ⟨rfl, by simp [hls]⟩⟩
   | scheduled =>
     simp only [determineAction, hdec, deliverCall]
     obtain ⟨hs1, hs2⟩ := hf.scheduled hdec
     simp only [bind_run, buildOutcome_run, pure_run, throw_run]
-    refine ⟨hπ, ?_⟩
+    refine ⟨hπ, ?_, rfl, by simp [hre, hr],
+      Or.inr (Or.inl ⟨⟨_, rfl, by simp [hr]⟩, by simp [hre, hs2]⟩)⟩
     cases fr with
     | true =>
       have := hcr rfl
@@ -214,16 +244,18 @@ theorem deliver_rel {cfg : Cfg} (tl : Bool) {a : Nat} {o : AOutcome} {r re : RSt
     | true =>
       simp only [determineAction, hdec, deliverCall, if_true]
       simp only [bind_run, buildOutcome_run, pure_run, throw_run]
-      refine ⟨hπ, ?_⟩
+      obtain ⟨s, hs, hsa⟩ := hs2
+      refine ⟨hπ, ?_, rfl, by simp [hre, hr],
+        Or.inr (Or.inl ⟨⟨_, rfl, by simp [hr]⟩, by simp [hre, hs, hsa]⟩)⟩
       have := hcr rfl
-      obtain ⟨s, hs⟩ := Option.isSome_iff_exists.mp hs2
-      simp [deliverRelated, hre, hs1, hs, hatt, this, hdec]
+      simp [deliverRelated, hre, hs1, hs, hatt, this]
     | false =>
       obtain ⟨h1, e, he1, h3, h4⟩ := hce rfl
       simp only [determineAction, hdec, deliverCall, Bool.false_eq_true, if_false, he1]
       simp only [bind_run, buildOutcome_run, pure_run, throw_run]
-      refine ⟨hπ, ?_⟩
-      rw [dr_plain h4]
+      obtain ⟨s, hs, hsa⟩ := hs2
+      refine ⟨hπ, ?_, rfl, by simp [hre, hr], Or.inr (Or.inr (Or.inl ⟨h4, by simp [hre, hs, hsa]⟩))⟩
+      rw [dr_plain h4.1]
       simp [hre, h1, h3]
   | success => exact absurd hdec hf.notSuccess
 
